@@ -392,7 +392,9 @@ func (w *World) callSSA(caller *frame, callpos token.Pos, fn *ssa.Function, args
 			name = fn.Origin().String()
 		}
 		if ext := externals[name]; ext != nil {
-			return ext(fr, args)
+			if r := ext(fr, args); r != extDecline {
+				return r
+			}
 		}
 		if fn.Pkg == nil && fn.Origin() == nil && fn.Blocks == nil {
 			// synthetic wrapper without body
